@@ -20,7 +20,7 @@ L = {"quick": 2, "thorough": 3}
 
 
 def bounds(tier):
-    return dict(sequence_length=L[tier], C_D=[(2, 1)] if tier == "quick" else [(2, 1), (2, 2)], operations=OPS, map_operations=MAP_OPS)
+    return dict(sequence_length=L[tier], sequence_length_note="length 3 at (C,D)=(2,1); length 2 at (2,2)", C_D=[(2, 1)] if tier == "quick" else [(2, 1), (2, 2)], operations=OPS, map_operations=MAP_OPS)
 
 
 def apply_op(B, m, op, i, C, D, ubm=None):
@@ -145,9 +145,10 @@ def job_ctor(P, C, D):
 def jobs(tier):
     out = []
     for (C, D) in bounds(tier)["C_D"]:
+        length = L[tier] if (C, D) == (2, 1) else 2  # length-3 histories at the smallest size only
         for first in OPS:
-            out.append(("ml@C%dD%d-%s" % (C, D, first), "job_hist", dict(C=C, D=D, first=first, kind="ml", ops=OPS, length=L[tier])))
+            out.append(("ml@C%dD%d-%s" % (C, D, first), "job_hist", dict(C=C, D=D, first=first, kind="ml", ops=OPS, length=length)))
         for first in MAP_OPS:
-            out.append(("map@C%dD%d-%s" % (C, D, first), "job_hist", dict(C=C, D=D, first=first, kind="map", ops=MAP_OPS, length=L[tier])))
+            out.append(("map@C%dD%d-%s" % (C, D, first), "job_hist", dict(C=C, D=D, first=first, kind="map", ops=MAP_OPS, length=length)))
         out.append(("ctor@C%dD%d" % (C, D), "job_ctor", dict(C=C, D=D)))
     return out
